@@ -119,7 +119,9 @@ func errStr(e error) string {
 	return e.Error()
 }
 
-func gateBody(c0 uint16, waiters, operators, opsEach int, alphabet []opKind) func() {
+// firstOp >= 0 fixes the first choice of operator 0 (the thorough tier splits one exploration into one scenario per
+// first operation so that the sub-trees run on different cores); -1 leaves it free.
+func gateBody(c0 uint16, waiters, operators, opsEach int, alphabet []opKind, firstOp int) func() {
 	return func() {
 		g := core.NewGate(c0)
 		m := &latch{count: c0}
@@ -157,7 +159,10 @@ func gateBody(c0 uint16, waiters, operators, opsEach int, alphabet []opKind) fun
 			o := o
 			sched.Go(fmt.Sprintf("operator%d", o), func() {
 				for i := 0; i < opsEach; i++ {
-					k := sched.Choose(len(alphabet)+1, "op")
+					k := firstOp
+					if o != 0 || i != 0 || firstOp < 0 {
+						k = sched.Choose(len(alphabet)+1, "op")
+					}
 					if k == len(alphabet) {
 						break // shorter program
 					}
@@ -245,13 +250,31 @@ func judge(e *sched.Exec) (string, string, *sched.Failure) {
 	return outcome, fmt.Sprint(r.history), r.fail
 }
 
+// gateScenarioSplit: the same exploration as gateScenario, one scenario per first operation of operator 0.
+func gateScenarioSplit(c0 uint16, waiters, operators, opsEach int) []hx.Scenario {
+	var out []hx.Scenario
+	for k := 0; k <= len(fullAlphabet); k++ {
+		k := k
+		first := "none(shorter program)"
+		if k < len(fullAlphabet) {
+			first = opNames[fullAlphabet[k]]
+		}
+		name := fmt.Sprintf("gate/count0=%d/waiters=%d/operators=%d/ops=%d/operator0-first=%s", c0, waiters, operators, opsEach, first)
+		out = append(out, hx.Scenario{Name: name, Run: func(c *hx.Ctx) *hx.ScenarioResult {
+			opt := sched.Options{Bound: 1 << 20, MaxSteps: 10000}
+			return hx.ExploreScenario(c, "C11", name, opt, gateBody(c0, waiters, operators, opsEach, fullAlphabet, k), judge)
+		}})
+	}
+	return out
+}
+
 var fullAlphabet = []opKind{opWalk, opSet0, opSet1, opSet2, opReset, opCancelErr, opCancelNil, opClear, opRegister1}
 
 func gateScenario(c0 uint16, waiters, operators, opsEach int) hx.Scenario {
 	name := fmt.Sprintf("gate/count0=%d/waiters=%d/operators=%d/ops=%d", c0, waiters, operators, opsEach)
 	return hx.Scenario{Name: name, Run: func(c *hx.Ctx) *hx.ScenarioResult {
 		opt := sched.Options{Bound: 1 << 20, MaxSteps: 10000}
-		return hx.ExploreScenario(c, "C11", name, opt, gateBody(c0, waiters, operators, opsEach, fullAlphabet), judge)
+		return hx.ExploreScenario(c, "C11", name, opt, gateBody(c0, waiters, operators, opsEach, fullAlphabet, -1), judge)
 	}}
 }
 
@@ -266,8 +289,8 @@ func init() {
 			s = append(s, gateScenario(1, 2, 2, 1))
 		} else {
 			for c0 := uint16(0); c0 <= 2; c0++ {
-				s = append(s, gateScenario(c0, 3, 2, 3))
-				s = append(s, gateScenario(c0, 2, 3, 2))
+				s = append(s, gateScenarioSplit(c0, 3, 2, 2)...)
+				s = append(s, gateScenarioSplit(c0, 2, 2, 3)...)
 			}
 		}
 		s = append(s, flowScenarios(tier)...)
